@@ -386,10 +386,20 @@ VARIANTS = [
     {"name": "P15 face bitfield reader accumulates in one expression", "file": TEMPLATES, "expect": "silent",
      "old": "            have_next = char & 0x80\n            val |= char & 0x7F\n            if have_next:\n                val <<= 7\n",
      "new": "            have_next = bool(char & 0x80)\n            val = val | (char & 0x7F)\n            if have_next:\n                val = val << 7\n"},
-    {"name": "P16 plain branch accepts inf / nan spellings (the fix the rule asks for)", "file": FMT, "expect": "silent",
-     "old": "                    elif re.match(r\"\\A\\w+-\\w+-.*\", var_val):\n",
-     "new": "                    elif re.match(r\"\\A[-+]?(inf|nan)\\Z\", var_val):\n                        var_val = float(var_val)\n"
-            "                    elif re.match(r\"\\A\\w+-\\w+-.*\", var_val):\n"},
+    {"name": "R16 non-finite float branch removed again (D48 reverted)", "file": FMT, "expect": "C11.R16",
+     "old": "                    elif re.match(r\"\\A[-+]?(inf|nan)\\Z\", var_val):\n                        var_val = float(var_val)\n",
+     "new": ""},
+    {"name": "R16 branch only knows infinity", "file": FMT, "expect": "C11.R16",
+     "old": "                    elif re.match(r\"\\A[-+]?(inf|nan)\\Z\", var_val):\n",
+     "new": "                    elif re.match(r\"\\A[-+]?inf\\Z\", var_val):\n"},
+    {"name": "P16 non-finite test written with lstrip and a tuple", "file": FMT, "expect": "silent",
+     "old": "                    elif re.match(r\"\\A[-+]?(inf|nan)\\Z\", var_val):\n",
+     "new": "                    elif var_val.lstrip(\"+-\") in (\"inf\", \"nan\"):\n"},
+    {"name": "P16 non-finite spellings in a module-level constant", "expect": "silent",
+     "edits": [{"file": FMT, "old": "class HumanMessageSerializer:\n",
+                "new": "_NON_FINITE = frozenset({\"inf\", \"-inf\", \"+inf\", \"nan\"})\n\n\nclass HumanMessageSerializer:\n"},
+               {"file": FMT, "old": "                    elif re.match(r\"\\A[-+]?(inf|nan)\\Z\", var_val):\n",
+                "new": "                    elif var_val in _NON_FINITE:\n"}]},
     # ------------------------------------------------------------------ documented limits
     {"name": "X wrap width changed (line-wrapping details are value level)", "file": FMT, "expect": "miss",
      "old": "HippoPrettyPrinter(width=100)", "new": "HippoPrettyPrinter(width=40)"},
